@@ -225,6 +225,15 @@ class _Sym(str):
         o._gt_cls = kind
         return o
 
+    def __deepcopy__(self, memo):
+        return self      # immutable
+
+    def __copy__(self):
+        return self
+
+    def __reduce__(self):
+        return (_Sym, (str(self), self._gt_cls))
+
 
 def V(x):
     return _Sym(x, 'Variable')
@@ -299,6 +308,7 @@ def check_nullable(ctx, rep, f, rule=RULE + '.M15'):
 def _interp(ctx, order, **kw):
     it = Interp(ctx, **kw)
     it.set_order = order
+    it.copy_records = True      # deepcopy of a model record copies its fields (refused when a class of the tree has a copy hook)
     return it
 
 
@@ -1494,3 +1504,42 @@ def check_language_helpers(ctx, rep, funcs, rule=RULE + '.M31'):
         except (Unsupported, RecursionError) as e:
             rep.undecided(rule, f, 'def ' + f.name, 'outside the evaluator: {}'.format(e))
     return n_ok
+
+
+# ---- membership for general grammars (the on-the-fly Chomsky conversion included) ---------------------------------------------------
+
+def check_cfg_membership(ctx, rep, f, rule=RULE + '.M32'):
+    """cfg_accepts_word on the general model grammars (epsilon rules, nullable chains, unit cycles, long right-hand sides) and all
+    words up to length 3 over their terminals: True exactly when the start variable derives the word (least fixpoint computed
+    by the analyser); the grammar handed in is untouched."""
+    classes = dict(_CFG_CLASSES)
+    classes['Variable'] = lambda x: V(str(x))
+    classes['Terminal'] = lambda x: T(str(x))
+    cases = 0
+    try:
+        for name, rules in _GEN_GRAMMARS.items():
+            G0 = _grammar(rules)
+            plain = _rules_of(G0)
+            sigma = sorted({x for _, syms in plain for x, kind in syms if kind == 'Terminal'})
+            L = _lang_fix(plain, 3)['S']
+            for n in range(4):
+                for tup in itertools.product(sigma, repeat=n):
+                    w = ''.join(tup)
+                    G = _grammar(rules)
+                    G._f['epsilon'] = T('ε')
+                    ok, got = _run(rule, rep, f, lambda: _interp(ctx, 'asc', classes=classes, max_steps=4000000).call(f, [G, w]), 'on the grammar {} and the word {!r}'.format(name, w))
+                    if not ok:
+                        return
+                    if not isinstance(got, bool):
+                        raise Unsupported('the answer is not a boolean')
+                    cases += 1
+                    if got != (w in L):
+                        rep.violates(rule, f, 'def ' + f.name, 'on the grammar {} the word {!r} is {} although the start variable {} it'.format(name, w, 'accepted' if got else 'rejected', 'derives' if w in L else 'does not derive'))
+                        return
+                    if _rules_of(G) != plain or {str(x) for x in G._f['V']} != {str(x) for x in G0._f['V']}:
+                        rep.violates(rule, f, 'def ' + f.name, 'on the grammar {} the grammar handed in is modified by the membership test'.format(name))
+                        return
+    except (Unsupported, RecursionError) as e:
+        rep.undecided(rule, f, 'def ' + f.name, 'outside the evaluator: {}'.format(e))
+        return
+    rep.holds(rule, f, 'def ' + f.name, 'on {} evaluations (eight general model grammars, all words up to length 3) the answer is True exactly when the start variable derives the word, and the grammar handed in is untouched'.format(cases))
